@@ -7,6 +7,22 @@ HERE = os.path.dirname(os.path.abspath(__file__))
 
 # property -> (level category, engine/world, technique, level text, level note)
 CHECKS = {
+ "C05": ("exploration", "NET+CHAIN",
+   "deterministic simulation: (1) history oracle — every signature honest engines emit in the NET simulation (seeded schedules, message faults, crash/restart) is recorded, every evidence assemblable from one validator's own signatures is replayed into the real slashing code (builder and validator path) on scratch head states; (2) Byzantine fault — a validator really equivocates on a chain grown by the real block-building path, with evidence duplication/replay/late/forged variants",
+   "Part 1 decides 'an honest validator is never slashable' over recorded histories of real engines; part 2 decides acceptance by builder and validator alike, exactly-once and the bounded penalty for real equivocation. Sampling, not proof. One genuine, unrepairable-without-protocol-change defect is recorded as known findings (classes honest-validator-slashable:different-hashes:<kinds>): the signed vote payload carries no vote kind.",
+   "Trusts: the forge for growing chains (genuine credentials/quorums); NET stand-ins as in C02. Every other evidence accepted against an honest validator (e.g. two prevotes, which would also be a C02 violation) is still reported."),
+ "C08": ("exploration", "STATE(+CHAIN)",
+   "seeded operation plans over the real StateDB with abort (revert), restart, cap-flush and copy-switch faults and a recomputation oracle after every operation and after reload",
+   "Statistics per role/kind, the address index, delegator/validator links and per-validator sums are recomputed from the records after every operation and on reopened/restarted states. The per-validator sum clauses are decided here only for StateDB's preservation of caller-maintained values; the real staking handlers' arithmetic is decided in the CHAIN part. Sampling, not proof.",
+   "Callers are operation patterns annotated with the production site they imitate; RemoveValidator (no production caller) is not driven; staleness of the GetValidators() per-object cache is counted as a diagnostic, not a violation."),
+ "C10": ("fault_enumeration", "STATE",
+   "recorded seeded plans with exhaustive crash-point enumeration over every commit window (simdisk Prefix(k) + recovery by re-import), restart/reopen reload oracles (getters and raw trie dump), copy equality/independence/commit, and regroup/permute rebuilds that must give identical roots",
+   "Within each run every disk-write index of every commit window is opened as a crash point: the previous triple must read identically and each new root is absent or complete. Plans, copy points, Cap limits, regroupings and permutations are sampled.",
+   "Crash model: process death, completed puts/batches durable. Each root is judged individually here; the three roots as a triple belong to C11."),
+ "C16": ("fault_enumeration", "EVM",
+   "abort-point enumeration: a seeded multi-contract program is recorded once under vm.Tracer and re-run once per reachable step with out-of-gas placed there (transaction gas or patched inner gas operand) plus generated natural failures (REVERT, INVALID, static violation, depth, balance, collision, code size); whole-state observations through vm.StateDB getters around every failed and every static frame",
+   "Traces with <= 96 placements are fully enumerated (about 45% of programs), the rest get an evenly spaced seeded sample; placement is verified after the fact. Multi-transaction programs on one StateDB create the snapshot-after-Finalise situation of C09. No scheduler: plain seeded loops.",
+   "The oracle uses only the Tracer and state getters, never RevertToSnapshot; exemptions are those of the EVM specification (gas, creator nonce). Address 0x03 excluded (deliberate RIPEMD touch exception)."),
  "C13": ("exploration", "TRIE",
    "deterministic seeded model-based simulation with fault injection (restart on durable data after every database commit, garbage collection of other roots, cache flush, proof corruption as a network fault) against a map model and an independent Merkle-Patricia root calculator",
    "Seeded operation/GC/Cap/restart schedules over trie.Trie/SecureTrie on trie.Database over the simulated disk. Inside each run the durable image is re-read cold after every Database.Commit (all crash points of the batch-atomic disk model). The root oracle is a second MPT implementation pinned to published vectors; proofs are tampered byte by byte. Sampling of schedules, not proof.",
